@@ -919,8 +919,15 @@ func transFollowTrace(id int, seed int64, tr transT, out *json.Encoder) {
 		r.exec(absOp{Op: "del", H: 2, K: tr.K, V: 1})
 		delete(model, tr.K)
 	}
-	for i := 0; i < 2; i++ {
+	for i := 0; i < 3; i++ {
 		k := 1 + rng.Intn(cfg.NK)
+		if rng.Intn(10) < 7 {
+			// near the place of the transition
+			k = tr.K - 3 + rng.Intn(7)
+			if k < 1 || k > cfg.NK {
+				k = 1 + rng.Intn(cfg.NK)
+			}
+		}
 		if v, ok := model[k]; ok && rng.Intn(2) == 0 {
 			r.exec(absOp{Op: "del", H: 2, K: k, V: v})
 			delete(model, k)
@@ -937,6 +944,44 @@ func transFollowTrace(id int, seed int64, tr transT, out *json.Encoder) {
 		r.exec(absOp{Op: "root", H: 2})
 	}
 	r.exec(absOp{Op: "iter", H: 3})
+}
+
+// directedShapes: three-level trees put together from groups of lower-layer keys separated by top-layer keys, where some groups
+// have no key of the middle layer (their middle-level node is a key-less pass-through node); the transition removes or re-inserts
+// a separator, which merges or splits the neighbouring groups at both levels.
+func directedShapes(rng *rand.Rand, n int) []transT {
+	var out []transT
+	for len(out) < n {
+		bf := []int{2, 2, 3, 4}[rng.Intn(4)]
+		var layers []int
+		var tops []int
+		groups := 2 + rng.Intn(3)
+		for g := 0; g < groups; g++ {
+			sz := 1 + rng.Intn(4)
+			keyless := rng.Intn(2) == 0
+			for i := 0; i < sz; i++ {
+				l := 0
+				if !keyless && rng.Intn(2) == 0 {
+					l = 1
+				}
+				layers = append(layers, l)
+			}
+			if g < groups-1 {
+				layers = append(layers, 2)
+				tops = append(tops, len(layers))
+			}
+		}
+		if len(layers) > 16 {
+			continue
+		}
+		present := []int{}
+		for k := 1; k <= len(layers); k++ {
+			present = append(present, k)
+		}
+		k := tops[rng.Intn(len(tops))]
+		out = append(out, transT{BF: bf, Layers: layers, Present: present, Op: "del", K: k})
+	}
+	return out
 }
 
 func transMapTrace(id int, seed int64, tr transT, out *json.Encoder) {
